@@ -6,7 +6,7 @@ from vf.harness import ProcHarness
 ID = "C21"
 PROP_MODULE = "SquidModel.Properties.C21"
 MODEL = "c21"
-GEN = ["http1_request"]
+GEN = ["http1_request", "charsets"]
 
 
 def build_exe(stage):
@@ -145,8 +145,40 @@ def gen_eol_h(rng):
     return rng.choice([b"\r\n"] * 5 + [b"\n", b"\r\r\n"])
 
 
-def gen_head(rng, relaxed):
-    """-> (bytes, offsets of interest)"""
+def gen_clean_head(rng, relaxed):
+    """a head the given mode accepts (most of the time): goes through all stages"""
+    m = rng.choice(KNOWN_METHODS) if rng.chance(3, 4) else rng.bytes(rng.range(1, 8), TCHARS)
+    t = rng.choice([b"/", b"/index.html", b"http://example.com/a?b=c", b"*", b"example.com:443"]) if rng.chance(1, 2) \
+        else b"/" + rng.bytes(rng.range(1, 16), URICH)
+    v = rng.choice([b"HTTP/1.1"] * 4 + [b"HTTP/1.0", b"HTTP/1.2", b"HTTP/2.0"])
+    if relaxed:
+        g = rng.choice([b""] * 3 + [b"\r\n", b"\n", b"\r\n\r\n", b"\n\r\n"])
+        d1 = b" " if rng.chance(2, 3) else rng.bytes(rng.range(1, 3), RELAXED_DELIMS)
+        d2 = b" " if rng.chance(2, 3) else rng.bytes(rng.range(1, 3), RELAXED_DELIMS)
+        if rng.chance(1, 5):
+            m = bytes(c ^ 0x20 if 65 <= c <= 90 else c for c in m)
+        if rng.chance(1, 5):
+            t += rng.choice([b" x", b"\"q\"", b"\xc3\xa9", b"|^"])
+        line = g + m + d1 + t + d2 + v + rng.choice([b"\r\n"] * 3 + [b"\n", b"\r\r\n"])
+    else:
+        line = m + b" " + t + b" " + v + b"\r\n"
+    if v == b"HTTP/2.0":
+        return line + rng.choice([b"", b"PRI"])
+    hdr = b""
+    for _ in range(rng.range(0, 4)):
+        name = rng.choice([b"Host", b"Accept", b"X-Foo", b"Content-Length", b"Connection", b"User-Agent"])
+        val = rng.choice([b"example.com", b"*/*", b"12", b"keep-alive", b"a b c", b"", b"x" * rng.range(1, 30)])
+        eol = b"\r\n" if not relaxed or rng.chance(3, 4) else b"\n"
+        hdr += name + b": " + val + eol
+        if rng.chance(1, 4):
+            hdr += rng.choice([b" ", b"\t"]) + rng.choice([b"folded", b"more words"]) + eol
+    if rng.chance(1, 8):
+        hdr = rng.choice([b" leading: ws\r\n", b"\tx\r\n"]) + hdr
+    end = b"\r\n" if not relaxed or rng.chance(3, 4) else b"\n"
+    return line + hdr + end + rng.choice([b""] * 3 + [b"BODY", b"GET / HTTP/1.1\r\n\r\n", b"\r\n"])
+
+
+def gen_wild_head(rng, relaxed):
     line = gen_garbage(rng) + gen_method(rng) + gen_delim(rng, relaxed) + gen_target(rng, relaxed)
     v = gen_version(rng)
     if v is not None:
@@ -155,6 +187,10 @@ def gen_head(rng, relaxed):
     head = line + gen_headers(rng) + rng.choice([b"\r\n"] * 5 + [b"\n", b"\n", b"", b"\r", b"\r\r\n"])
     head += rng.choice([b""] * 4 + [b"BODY", b"GET / HTTP/1.1\r\n\r\n", b"\r\n", b"\n", b"x"])
     return head
+
+
+def gen_head(rng, relaxed):
+    return gen_clean_head(rng, relaxed) if rng.chance(3, 5) else gen_wild_head(rng, relaxed)
 
 
 def mutate(rng, s):
@@ -216,7 +252,7 @@ def random_split(rng, head, ways):
     return segs
 
 
-def cases(rng, tier):
+def _cases(rng, tier):
     thorough = tier == "thorough"
     nheads = 900 if thorough else 230
     for n in range(nheads):
@@ -287,6 +323,18 @@ def cases(rng, tier):
     for g in (b"\r", b"\n", b"\r\n", b"\r\r\n", b"\n\r", b"\r\n\r", b"\n\r\n", b"\r\n\r\n", b" \r\n"):
         for relaxed in (False, True):
             yield from single_cuts(relaxed, DEFAULT_LIMIT, g + b"GET / HTTP/1.1\r\n\r\n")
+
+
+def cases(rng, tier):
+    """the generated cases, with those that carry a known-finding signature moved to the end: the framework examines the
+    first failing cases in order, so failures outside the known regions must come first to be seen"""
+    late = []
+    for l in _cases(rng, tier):
+        if classify(l, "", "") is not None:
+            late.append(l)
+        else:
+            yield l
+    yield from late
 
 
 def parse_outcome(txt):
